@@ -92,17 +92,19 @@ Proof.
 Qed.
 
 (* ------------------------------------------------------------------ sections: count, order, kind, mid *)
+(* the answer keeps the offered mids when a BUNDLE group was offered (in every compatibility mode, since
+   ca1331b), or -- outside LegacySip mode -- when there is a single section *)
 Definition mids_kept (c : config) (o : offer) : bool :=
-  negb (c_legacy c) && (will_bundle c o || (Z.of_nat (List.length (f_secs o)) <=? 1)).
+  will_bundle c o || (negb (c_legacy c) && (Z.of_nat (List.length (f_secs o)) <=? 1)).
 
 Lemma finish_mids c o pre :
   List.length pre = List.length (f_secs o) ->
   a_secs (finish_answer c o pre) = if mids_kept c o then pre else map clear_mid pre.
 Proof.
   intros Hlen. unfold finish_answer, mids_kept. destruct pre as [|p r].
-  - destruct (negb (c_legacy c) && _); reflexivity.
-  - rewrite <- Hlen. destruct (c_legacy c); [reflexivity|]. cbn [negb andb].
-    destruct (will_bundle c o); cbn [negb andb orb]; [reflexivity|].
+  - destruct (will_bundle c o || _); reflexivity.
+  - rewrite <- Hlen. destruct (will_bundle c o); cbn [negb andb orb]; [rewrite andb_false_r; reflexivity|].
+    destruct (c_legacy c); cbn [negb andb]; [reflexivity|].
     destruct (1 <? Z.of_nat (List.length (p :: r))) eqn:E1; destruct (Z.of_nat (List.length (p :: r)) <=? 1) eqn:E2; try reflexivity; lia.
 Qed.
 
@@ -357,20 +359,37 @@ Theorem bundle_ok c s o changed a :
   wfA (f_secs o) -> inv_state s -> compat_state s o -> applied s changed ->
   (forall sec, In sec (f_secs o) -> In (o_mid sec) (List.concat (f_groups o))) ->
   create_answer c (set_remote c s o changed) = AOk a ->
-  v_bundle o a = true /\ (a_group a <> None -> f_groups o <> [] /\ c_legacy c = false).
+  v_bundle o a = true /\ (a_group a <> None -> f_groups o <> []).
 Proof.
   intros Hwf Hinv Hc Happ Hcover H.
   destruct (coherent_fields c s o changed a Hwf Hinv Hc Happ H) as [pre [-> Hf]].
   assert (Hg : a_group (finish_answer c o pre) = match pre with [] => None | _ => if will_bundle c o then Some (map a_mid pre) else None end).
-  { unfold finish_answer. destruct pre; [reflexivity|]. destruct (c_legacy c); [reflexivity|].
+  { unfold finish_answer. destruct pre; [reflexivity|]. destruct (c_legacy c && negb (will_bundle c o)); [reflexivity|].
     destruct (negb (will_bundle c o) && _); reflexivity. }
   unfold v_bundle. rewrite Hg. split.
   - destruct pre as [|p r]; [reflexivity|]. destruct (will_bundle c o); [|reflexivity].
     apply subset_spec; [apply String.eqb_refl|]. intros m Hm. apply in_map_iff in Hm as [x [<- Hx]].
     destruct (forall2_in_l _ _ _ _ Hf Hx) as [sec [_ [Hs [_ [Hm _]]]]]. rewrite Hm. apply Hcover. exact Hs.
   - intros Hne. destruct pre as [|p r]; [congruence|]. unfold will_bundle in Hne.
-    destruct (c_legacy c); [cbn in Hne; congruence|]. destruct (f_groups o); [cbn in Hne; congruence|].
-    split; [discriminate|reflexivity].
+    destruct (f_groups o); [congruence|discriminate].
+Qed.
+
+(* an offered BUNDLE group is echoed over all sections, with the offered mids, in every compatibility mode *)
+Theorem bundle_echo c s o changed a :
+  wfA (f_secs o) -> inv_state s -> compat_state s o -> applied s changed ->
+  f_groups o <> [] -> f_secs o <> [] ->
+  create_answer c (set_remote c s o changed) = AOk a ->
+  a_group a = Some (map o_mid (f_secs o)) /\ map a_mid (a_secs a) = map o_mid (f_secs o).
+Proof.
+  intros Hwf Hinv Hc Happ Hg Hne H.
+  destruct (coherent_fields c s o changed a Hwf Hinv Hc Happ H) as [pre [-> Hf]].
+  assert (Hwb : will_bundle c o = true) by (unfold will_bundle; destruct (f_groups o); [congruence|reflexivity]).
+  assert (Hmids : map a_mid pre = map o_mid (f_secs o)).
+  { clear - Hf. induction Hf as [|x sec l l' [_ [_ [Hm _]]] _ IH]; [reflexivity|]. cbn. rewrite Hm, IH. reflexivity. }
+  assert (Hpre : pre <> []).
+  { intros ->. inversion Hf as [Hnil|]. congruence. }
+  unfold finish_answer. destruct pre as [|p r]; [congruence|]. rewrite Hwb. cbn [negb andb].
+  rewrite andb_false_r. cbn [a_group a_secs]. split; [rewrite Hmids; reflexivity|exact Hmids].
 Qed.
 
 (* ------------------------------------------------------------------ DTLS setup *)
@@ -585,7 +604,7 @@ Proof.
     + apply nodup_z_spec. apply flat_lookup_nodup; [apply nodup_z_spec; apply Hids; exact Hin|apply ext_uris_nodup].
   - intros Hcover. unfold v_bundle.
     assert (Hg : a_group (finish_answer c o pre) = match pre with [] => None | _ => if will_bundle c o then Some (map a_mid pre) else None end).
-    { unfold finish_answer. destruct pre; [reflexivity|]. destruct (c_legacy c); [reflexivity|].
+    { unfold finish_answer. destruct pre; [reflexivity|]. destruct (c_legacy c && negb (will_bundle c o)); [reflexivity|].
       destruct (negb (will_bundle c o) && _); reflexivity. }
     rewrite Hg. destruct pre as [|p r]; [reflexivity|]. destruct (will_bundle c o); [|reflexivity].
     apply subset_spec; [apply String.eqb_refl|]. intros m Hm. apply in_map_iff in Hm as [x [<- Hx]].
